@@ -149,7 +149,9 @@ def signatures(pm: ProgramModel, ctx: Ctx) -> None:
             continue
         es = eq_signature(eq)
         hsig = hash_signature(hs)
-        if es is None or hsig is None:
+        if es is None or hsig is None or (REQUIRED_EQ_FIELDS[cname] - set(es["fields"])):
+            # not (entirely) in the conjunctive `self.f == other.f` form - e.g. the comparison goes through a helper:
+            # the signature reading gives no verdict; the witness rules (equal copies, single-point edits) decide
             ctx.unverified("C20-EQSIG", f"shape:{cname}", loc(eq.unit.path, eq.node),
                            "__eq__/__hash__ not in the conjunctive signature form; decided by the "
                            "witness rules only")
@@ -249,6 +251,10 @@ def witnesses(pm: ProgramModel, ctx: Ctx) -> None:
     must_differ("Relation:fewer", base, rel("P", ["a", "b"], 1, 2), "relations with one member removed", rw)
     must_differ("Relation:card_min", base, rel("P", ["a", "b", "c"], 0, 2), "relations differing in card_min", rw)
     must_differ("Relation:card_max", base, rel("P", ["a", "b", "c"], 1, 3), "relations differing in card_max", rw)
+    must_differ("Relation:card_max-star", rel("P", ["a", "b", "c"], 1, -1), rel("P", ["a", "b", "c"], 1, 3),
+                "relations [1..*] and [1..3] over three children", rw)
+    must_differ("Relation:card_max-above-n", rel("P", ["a", "b", "c"], 1, 3), rel("P", ["a", "b", "c"], 1, 4),
+                "relations differing in card_max beyond the number of children", rw)
     # sort key invariance: two equal relations are not strictly ordered either way
     lt = pm.method(pm.cls("Relation"), "__lt__")
     if lt is not None:
